@@ -10,6 +10,8 @@ CONSTANTS MaxN = 0
           PartSel = 0
           SmallN = 60
           SmallM = 60
+          Small2N = 0
+          Small2M = 0
           SmallW = 4
           SampleMod = 1
           Salt = 0
